@@ -309,7 +309,93 @@ def c12_5(ctx):
     return out
 
 
+def param_blind_caches(ctx, modname, only_prefix=None):
+    """MEMO: a method that stores its result in `self.<attr>` and returns that attribute on later calls, although the stored
+    value depends on a parameter of the method, answers the second call with the first call's argument.
+    Returns (functions looked at, [(module, function, attribute, parameter, store node)])."""
+    mod = ctx.repo.module(modname)
+    hits = []
+    looked = 0
+    for qn, fn in mod.functions.items():
+        if "." not in qn or (only_prefix and not qn.startswith(only_prefix)):
+            continue
+        ps = param_names(fn)
+        if len(ps) < 2 or ps[0] != "self":
+            continue
+        looked += 1
+        cfg = cfg_of(fn)
+        returned = set()
+        for n in cfg.returns():
+            v = n.ast.value if n.ast is not None else None
+            if isinstance(v, ast.Attribute) and dotted(v.value) == "self":
+                returned.add(v.attr)
+        if not returned:
+            continue
+        for n in cfg.stmts(("stmt",)):
+            a = n.ast
+            if isinstance(a, ast.Assign):
+                for tg in a.targets:
+                    if isinstance(tg, ast.Attribute) and dotted(tg.value) == "self" and tg.attr in returned:
+                        at = origins(fn, n.id, a.value)
+                        dep = [p for p in ps[1:] if ("param:" + p) in at]
+                        # the early return must be able to bypass the computation: a test on the attribute exists
+                        tested = any(any(isinstance(x, ast.Attribute) and x.attr == tg.attr and dotted(x.value) == "self" for x in ast.walk(t.ast)) for t in cfg.tests())
+                        if dep and tested:
+                            hits.append((mod, fn, tg.attr, dep[0], n))
+    return looked, hits
+
+
+def c12_6(ctx):
+    """no commitment computation is cached under a key that ignores one of its arguments (ControlBlock.merkle_root(script),
+    external_pubkey(script), tweaks): a control block asked about the genuine script and then about an altered one must
+    recompute, otherwise tampering goes undetected on the second call"""
+    from sa.memo import global_table_caches
+    looked, hits = param_blind_caches(ctx, "taproot")
+    out = []
+    users, ghits = global_table_caches(ctx, "taproot")
+    for mod, fn, table, missing, n in ghits:
+        out.append(ctx.bad("taproot:%s" % fn.name, "the module-level table `%s` caches a result under a key that ignores the argument(s) %s" % (table, ", ".join(missing)), n.ast, mod,
+                           key="table-cache:" + table))
+    for mod, fn, attr, p, n in hits:
+        out.append(ctx.bad("taproot:%s" % fn.name, "`self.%s` caches a value computed from the argument `%s` and is returned on later calls whatever the argument is: "
+                                                   "the second script checked against the same object inherits the first one's result" % (attr, p), n.ast, mod, key="param-blind-cache:" + attr))
+    if not hits:
+        out.append(ctx.ok("taproot:*", "no method of buidl/taproot.py returns a cached attribute that was computed from one of its arguments (%d methods with arguments inspected)" % looked,
+                          key="param-blind-cache"))
+    return out
+
+
+def _self_attrs(fn, receiver):
+    """attributes of `receiver` read in fn (one level of self-method calls is not followed: direct reads only)"""
+    return {a.attr for a in ast.walk(fn) if isinstance(a, ast.Attribute) and isinstance(a.ctx, ast.Load) and isinstance(a.value, ast.Name) and a.value.id == receiver
+            and not isinstance(getattr(a, "_parent_call", None), ast.Call)}
+
+
+def c12_7(ctx):
+    """Leaf identity agrees with the leaf commitment: TapLeaf.__eq__ compares every field TapLeaf.hash() commits to.
+    `leaf in self.left.leaves()` (path_hashes / control_block) relies on it: were two leaves with the same script and
+    different leaf versions equal, the control block of one would carry the sibling path of the other."""
+    mod, eq = rl.get(ctx, "taproot:TapLeaf.__eq__")
+    _, h = rl.get(ctx, "taproot:TapLeaf.hash")
+    ps = param_names(eq)
+    committed = {a for a in _self_attrs(h, "self") if not a.startswith("__")}
+    mine, theirs = _self_attrs(eq, ps[0]), _self_attrs(eq, ps[1])
+    # method attributes (self.serialize()) are not data fields
+    methods = {q.split(".", 1)[1] for q in mod.functions if q.startswith("TapLeaf.")}
+    committed -= methods
+    if not committed:
+        raise AnalysisError("TapLeaf.hash: no committed field found")
+    via_hash = any(isinstance(c, ast.Call) and call_name(c) == "hash" for c in ast.walk(eq))
+    missing = sorted(f for f in committed if not (f in mine and f in theirs))
+    if not missing or via_hash:
+        return [ctx.ok("taproot:TapLeaf.__eq__", "equality compares %s (the fields hash() commits to)" % ("the hashes" if via_hash else ", ".join(sorted(committed))), eq, mod, key="eq-commit")]
+    return [ctx.bad("taproot:TapLeaf.__eq__", "equality ignores %s although hash() commits to it: two leaves that differ only there are `==`, `leaf in leaves()` finds the wrong one "
+                    "and its control block gets the other leaf's path (the leaf becomes unspendable)" % ", ".join(missing), eq, mod, key="eq-commit")]
+
+
 OBLIGATIONS = [
+    ("C12.7", "SIBLING read-set", c12_7),
+    ("C12.6", "MEMO", c12_6),
     ("C12.1", "SIBLING", c12_1),
     ("C12.2", "LAYOUT", c12_2),
     ("C12.3", "LAYOUT slice tiling", c12_3),
